@@ -258,3 +258,168 @@ Section AddSimplex.
         specialize (Hf u Hu Hub Hf2). apply K_as_spec in Hf. destruct Hf as [Hf|[_ Hf]]; [congruence|auto].
   Qed.
 End AddSimplex.
+
+(* ================================================================== Part B: the transcription *)
+Lemma seqb_eq a b : seqb a b = true <-> a = b.
+Proof.
+  revert b. induction a as [|x a IH]; destruct b as [|y b]; simpl; split; try congruence; auto.
+  - rewrite andb_true_iff, Z.eqb_eq, IH. intros [-> ->]; auto.
+  - intros E; inversion E; subst. rewrite Z.eqb_refl. apply IH; auto.
+Qed.
+Lemma smem_In v s : smem v s = true <-> In v s.
+Proof.
+  unfold smem. rewrite existsb_exists. split.
+  - intros [x [H1 H2]]. apply Z.eqb_eq in H2. subst; auto.
+  - intros H. exists v. split; auto. apply Z.eqb_refl.
+Qed.
+Lemma ssub_incl a b : ssub a b = true <-> incl a b.
+Proof.
+  unfold ssub, incl. rewrite forallb_forall. split; intros H x Hx; apply smem_In; auto.
+Qed.
+Lemma ssub_refl a : ssub a a = true.
+Proof. apply ssub_incl, incl_refl. Qed.
+Lemma ssub_trans a b c : ssub a b = true -> ssub b c = true -> ssub a c = true.
+Proof. rewrite !ssub_incl. apply incl_tran. Qed.
+Lemma lmem_In s l : lmem s l = true <-> In s l.
+Proof.
+  unfold lmem. rewrite existsb_exists. split.
+  - intros [x [H1 H2]]. apply seqb_eq in H2. subst; auto.
+  - intros H. exists s. split; auto. apply seqb_eq; auto.
+Qed.
+Lemma ssub_length a b : NoDup a -> ssub a b = true -> (length a <= length b)%nat.
+Proof. intros Hn H. apply NoDup_incl_length; auto. apply ssub_incl; auto. Qed.
+
+(* B1: blocks = some non-empty blocker is included; contains = gamma(graph, blockers) *)
+Lemma blocks_spec c s : blocks c s = true <-> exists b, In b (blk c) /\ b <> [] /\ ssub b s = true.
+Proof.
+  unfold blocks, blockers_at. rewrite existsb_exists. split.
+  - intros [v [Hv H]]. apply existsb_exists in H. destruct H as [b [Hb Hs]]. apply filter_In in Hb.
+    destruct Hb as [Hb Hm]. exists b. repeat split; auto. intros ->. discriminate.
+  - intros [b [Hb [Hne Hs]]]. destruct b as [|v b]; [congruence|]. exists v. split.
+    + apply (proj1 (ssub_incl _ _) Hs). left; auto.
+    + apply existsb_exists. exists (v :: b). split; auto. apply filter_In. split; auto.
+      apply smem_In. left; auto.
+Qed.
+
+Lemma contains_two c x y r : contains c (x :: y :: r) = contains_edges c (x :: y :: r) && negb (blocks c (x :: y :: r)).
+Proof. reflexivity. Qed.
+
+Theorem contains_is_gamma c s : contains c s = true <->
+  s <> [] /\ (forall v, In v s -> contains_vertex c v = true) /\
+  ((2 <= length s)%nat -> all_pairs (has_edge c) s = true /\ forall b, In b (blk c) -> b <> [] -> ssub b s = false).
+Proof.
+  destruct s as [|x [|y r]].
+  - simpl. split; [discriminate | intros [H _]; congruence].
+  - simpl. split.
+    + intros H. split; [congruence|]. split; [intros v [<-|[]]; auto | intros; lia].
+    + intros [_ [H _]]. apply H. auto.
+  - rewrite contains_two. unfold contains_edges. split.
+    + intros H. apply andb_true_iff in H. destruct H as [H H3]. apply andb_true_iff in H. destruct H as [H1 H2].
+      apply negb_true_iff in H3. rewrite forallb_forall in H1.
+      split; [congruence|]. split; [exact H1|]. intros _. split; [exact H2|].
+      intros b Hb Hne. destruct (ssub b (x :: y :: r)) eqn:E; auto.
+      assert (blocks c (x :: y :: r) = true) by (apply blocks_spec; exists b; auto). congruence.
+    + intros [_ [H1 H2]]. destruct H2 as [H2 H3]; [simpl; lia|].
+      apply andb_true_iff. split; [apply andb_true_iff; split; [apply forallb_forall; exact H1 | exact H2]|].
+      apply negb_true_iff.
+      destruct (blocks c (x :: y :: r)) eqn:E; auto. apply blocks_spec in E. destruct E as [b [Hb [Hne Hs]]].
+      rewrite (H3 b Hb Hne) in Hs. discriminate.
+Qed.
+
+(* B2: add_blocker removes exactly the cofaces of the new blocker *)
+
+Theorem add_blocker_spec (c : cplx) (sigma t : simplex) : (3 <= length sigma)%nat -> NoDup sigma ->
+  contains (add_blocker c sigma) t = contains c t && negb (ssub sigma t).
+Proof.
+  intros Hl Hn. unfold add_blocker. destruct (contains_blocker c sigma) eqn:E.
+  - destruct (ssub sigma t) eqn:Es; [|rewrite andb_true_r; auto]. rewrite andb_false_r.
+    pose proof (ssub_length _ _ Hn Es) as Hlt.
+    destruct t as [|x [|y r]]; simpl in Hlt; try lia. rewrite contains_two.
+    assert (blocks c (x :: y :: r) = true).
+    { apply blocks_spec. exists sigma. unfold contains_blocker in E. destruct (dim sigma <? 2); [discriminate|].
+      apply lmem_In in E. unfold blockers_at in E. apply filter_In in E. destruct E as [E _].
+      repeat split; auto. intros ->. simpl in Hl. lia. }
+    rewrite H. rewrite andb_false_r. auto.
+  - destruct t as [|x [|y r]].
+    + reflexivity.
+    + simpl contains. unfold contains_vertex. simpl.
+      destruct (ssub sigma [x]) eqn:Es; [|rewrite andb_true_r; auto].
+      pose proof (ssub_length _ _ Hn Es). simpl in H. lia.
+    + rewrite !contains_two.
+      assert (Hce : contains_edges (mkC (slots c) (act c) (edg c) (blk c ++ [sigma])) (x :: y :: r)
+                    = contains_edges c (x :: y :: r)) by reflexivity.
+      rewrite Hce. rewrite <- andb_assoc. f_equal. rewrite <- negb_orb. f_equal.
+      apply eq_true_iff_eq. rewrite orb_true_iff, !blocks_spec. simpl blk. split.
+      * intros [b [Hb [Hne Hs]]]. apply in_app_iff in Hb. destruct Hb as [Hb|[<-|[]]]; auto.
+        left. exists b; auto.
+      * intros [[b [Hb [Hne Hs]]]|Hs].
+        -- exists b. repeat split; auto. apply in_app_iff; auto.
+        -- exists sigma. repeat split; auto; [apply in_app_iff; right; left; auto|]. intros ->. simpl in Hl. lia.
+Qed.
+
+(* B3: remove_star of a simplex of dimension >= 2 deletes exactly the simplices containing it (no hypothesis on c) *)
+Lemma In_remove_first_1 x s l : In x (remove_first s l) -> In x l.
+Proof.
+  induction l as [|y l IH]; simpl; auto. destruct (seqb s y); simpl; auto. intros [H|H]; auto.
+Qed.
+Lemma In_remove_first_2 x s l : In x l -> x = s \/ In x (remove_first s l).
+Proof.
+  induction l as [|y l IH]; simpl; auto. intros [<-|H].
+  - destruct (seqb s y) eqn:E; [apply seqb_eq in E; auto | right; left; auto].
+  - destruct (seqb s y); auto. destruct (IH H); auto. right; right; auto.
+Qed.
+Lemma fold_delete_blocker L : forall c,
+  let c1 := fold_left delete_blocker L c in
+  slots c1 = slots c /\ act c1 = act c /\ edg c1 = edg c /\
+  (forall b, In b (blk c1) -> In b (blk c)) /\ (forall b, In b (blk c) -> In b (blk c1) \/ In b L).
+Proof.
+  induction L as [|s L IH]; intros c; simpl.
+  - repeat split; auto.
+  - destruct (IH (delete_blocker c s)) as [H1 [H2 [H3 [H4 H5]]]]. simpl in *.
+    repeat split; auto.
+    + intros b Hb. apply H4 in Hb. eapply In_remove_first_1; eauto.
+    + intros b Hb. destruct (In_remove_first_2 b s _ Hb) as [->|Hb']; auto.
+      destruct (H5 b Hb'); auto.
+Qed.
+
+Lemma contains_same_graph c c1 t :
+  slots c1 = slots c -> act c1 = act c -> edg c1 = edg c ->
+  (forall x y r, t = x :: y :: r -> blocks c1 t = blocks c t) -> contains c1 t = contains c t.
+Proof.
+  intros H1 H2 H3 H4. destruct t as [|x [|y r]]; auto.
+  - simpl. unfold contains_vertex. rewrite H1, H2. auto.
+  - rewrite !contains_two. rewrite (H4 x y r eq_refl). f_equal.
+    unfold contains_edges, contains_vertex, has_edge. rewrite H1, H2, H3. auto.
+Qed.
+
+Theorem remove_star_simplex_spec thr (c : cplx) (sigma t : simplex) : (3 <= length sigma)%nat -> NoDup sigma ->
+  contains (remove_star_simplex thr c sigma) t = contains c t && negb (ssub sigma t).
+Proof.
+  intros Hl Hn. unfold remove_star_simplex.
+  assert (Hd0 : dim sigma =? 0 = false) by (apply Z.eqb_neq; unfold dim, zlen; lia).
+  assert (Hd1 : dim sigma =? 1 = false) by (apply Z.eqb_neq; unfold dim, zlen; lia).
+  rewrite Hd0, Hd1. rewrite add_blocker_spec; auto.
+  destruct (ssub sigma t) eqn:Es; [rewrite !andb_false_r; auto|]. rewrite !andb_true_r.
+  unfold remove_blocker_containing_simplex.
+  set (L := filter (fun b => ssub sigma b) (blockers_at c (hdz sigma))).
+  destruct (fold_delete_blocker L c) as [H1 [H2 [H3 [H4 H5]]]].
+  apply contains_same_graph; auto. intros x y r Et.
+  apply eq_true_iff_eq. rewrite !blocks_spec. split.
+  - intros [b [Hb Hr]]. exists b. split; auto.
+  - intros [b [Hb [Hne Hs]]]. destruct (H5 b Hb) as [Hb'|Hb'].
+    + exists b; auto.
+    + exfalso. unfold L in Hb'. apply filter_In in Hb'. destruct Hb' as [_ Hb'].
+      rewrite (ssub_trans _ _ _ Hb' Hs) in Es. discriminate.
+Qed.
+
+(* B4: link_condition = no blocker through both vertices *)
+Theorem link_condition_spec c a b : link_condition c a b = true <->
+  forall s, In s (blk c) -> ~ (In a s /\ In b s).
+Proof.
+  unfold link_condition, blockers_at. rewrite negb_true_iff. split.
+  - intros H s Hs [Ha Hb]. assert (existsb (smem b) (filter (smem a) (blk c)) = true); [|congruence].
+    apply existsb_exists. exists s. split; [apply filter_In; split; auto|]; apply smem_In; auto.
+  - intros H. destruct (existsb (smem b) (filter (smem a) (blk c))) eqn:E; auto.
+    apply existsb_exists in E. destruct E as [s [Hs Hb]]. apply filter_In in Hs. destruct Hs as [Hs Ha].
+    exfalso. apply (H s Hs). split; apply smem_In; auto.
+Qed.
